@@ -9,6 +9,7 @@ Require Import V.Proofs.ConductorBase.
 Require Import V.Proofs.ConductorInv.
 Require Import V.Proofs.ConductorProofs.
 Require Import V.Proofs.ConductorClose.
+Require Import V.Proofs.ConductorChan.
 Require Import V.Oracle.C09Oracle.
 Require Import V.Proofs.C09OracleProofs.
 Open Scope Z_scope.
@@ -37,6 +38,25 @@ Theorem C09_add_rejected : forall k a1 a2 a3 s s' e cbs cmds,
   (s' = s \/ (ring_full s = true /\ e = IllegalState /\ s' = set_next_corr (next_corr s + 1) s)) /\ cbs = [] /\ cmds = [].
 Proof. exact add_rejected. Qed.
 Print Assumptions C09_add_rejected.
+
+(* every refusal of an add has its reason: the driver is inactive, the client is closed, the arguments are illegal (a counter
+   key / label over its limit, or a command that does not fit the 512-byte command buffer - `add_illegal`), or the ring refused
+   the write; conversely legal arguments on an open client with an active driver and room in the ring are accepted - in
+   particular a command of exactly 512 bytes *)
+Theorem C09_add_refused_why : forall k a1 a2 a3 s s' e cbs cmds,
+  do_add k a1 a2 a3 s = (s', (Err e, cbs, cmds)) ->
+  (e = DriverInactive /\ driver_active s = false) \/ (e = Closed /\ closed s = true) \/
+  (e = IllegalArg /\ add_illegal k a1 a2 a3 = true) \/ (e = IllegalState /\ ring_full s = true).
+Proof. exact add_refused_why. Qed.
+Print Assumptions C09_add_refused_why.
+Theorem C09_add_legal_accepted : forall k a1 a2 a3 s,
+  driver_active s = true -> closed s = false -> add_illegal k a1 a2 a3 = false -> ring_full s = false ->
+  exists s', do_add k a1 a2 a3 s = (s', (Ok [next_corr s], [], [Cmd (add_cmd_type k a1) (client_id s) (next_corr s) (add_cmd_args k a1 a2 a3)])).
+Proof. exact add_legal_accepted. Qed.
+Print Assumptions C09_add_legal_accepted.
+Example C09_exact_fit : add_illegal KPub 1 1 488 = false /\ add_illegal KPub 1 1 489 = true /\ add_illegal KSub 1 1 480 = false /\
+  add_illegal KSub 1 1 481 = true /\ add_illegal KCtr 1 112 372 = false /\ add_illegal KCtr 1 112 373 = true /\ add_illegal KCtr 1 0 381 = true.
+Proof. repeat split; vm_compute; reflexivity. Qed.
 
 (* the id handed out is fresh: no registration of any kind carries it and it is not the client id *)
 Theorem C09_add_fresh : forall s k, inv s -> lookup (next_corr s) (getm k s) = None /\ client_id s <> next_corr s.
@@ -90,6 +110,19 @@ Theorem C09_duplicate_publication_ready_ignored : forall corr orig stream sessio
 Proof. exact ready_answer_not_awaiting_pub. Qed.
 Print Assumptions C09_duplicate_publication_ready_ignored.
 
+(* exclusive publications: the same (they are looked up, dropped and timed out through the same theorems below, which hold
+   for every kind; on the implementation side they are reached through the hook find_exclusive_publication_for_verif) *)
+Theorem C09_ready_answer_exclusive_publication : forall id stream session limit chstat s e,
+  lookup id (xpubs s) = Some e -> e_status e = Awaiting ->
+  exists s', on_event (EvXPubReady id stream session limit chstat) s = (s', [CbNewXPub id stream session (e_a1 e)], false) /\
+    lookup id (xpubs s') = Some (set_ready session limit chstat (-1) (e_obj e) e).
+Proof. exact ready_answer_xpub. Qed.
+Print Assumptions C09_ready_answer_exclusive_publication.
+Theorem C09_duplicate_exclusive_publication_ready_ignored : forall id stream session limit chstat s e,
+  lookup id (xpubs s) = Some e -> e_status e <> Awaiting -> on_event (EvXPubReady id stream session limit chstat) s = (s, [], false).
+Proof. exact ready_answer_not_awaiting_xpub. Qed.
+Print Assumptions C09_duplicate_exclusive_publication_ready_ignored.
+
 (* first lookup after the ready answer: a new handle, from then on held *)
 Theorem C09_find_ready : forall c k r s e,
   k <> KDest -> closed s = false -> lookup r (getm k s) = Some e ->
@@ -98,14 +131,57 @@ Theorem C09_find_ready : forall c k r s e,
 Proof. exact find_first_held. Qed.
 Print Assumptions C09_find_ready.
 
-(* the same handle on every lookup while it is held: in any history that does not drop it, every lookup of (k, r)
-   returns that handle - or reports that the client has been closed *)
+(* the same handle on every lookup while it is held: in any history that does not drop it and in which the driver sends no
+   channel endpoint error, every lookup of (k, r) returns that handle - or reports that the client has been closed.
+   (With channel endpoint errors: C09_find_same_while_held_chan below.) *)
 Theorem C09_find_same_while_held : forall c k r h, k <> KDest -> forall ops s,
-  inv s -> (held k r h s \/ closed s = true) -> ~ In (DropHandle k r) ops ->
+  inv s -> (held k r h s \/ closed s = true) -> ~ In (DropHandle k r) ops -> no_chan ops ->
   Forall (fun p => fst p = Find k r -> snd p = (Ok [h], [], []) \/ snd p = (Err Closed, [], []))
          (combine ops (snd (run c s ops))).
 Proof. exact find_same_while_held. Qed.
 Print Assumptions C09_find_same_while_held.
+
+(* the same with channel endpoint errors in the history: every lookup of (k, r) returns that handle, or reports that the
+   client has been closed, or - once a channel endpoint error has ended the registration - that it is unknown; `gone` (no
+   entry, id below the correlation counter) is for good *)
+Theorem C09_find_same_while_held_chan : forall c k r h, k <> KDest -> forall ops s,
+  inv s -> (held k r h s \/ closed s = true \/ gone k r s) -> ~ In (DropHandle k r) ops ->
+  Forall (fun p => fst p = Find k r ->
+                   snd p = (Ok [h], [], []) \/ snd p = (Err Closed, [], []) \/ snd p = (Err NotFound, [], []))
+         (combine ops (snd (run c s ops))).
+Proof. exact find_same_while_held_chan. Qed.
+Print Assumptions C09_find_same_while_held_chan.
+
+(* ---- channel endpoint errors: ErrorResponse with error code 4; the id it carries is a channel status indicator id ---- *)
+(* the listener adapter sends error code 4 to on_channel_endpoint_error_response, every other code to on_error_response *)
+Theorem C09_error_dispatch : forall corr code,
+  ev_error corr code = if code =? GenConsts.ERROR_CODE_CHANNEL_ENDPOINT_ERROR then EvChanError corr else EvError corr code.
+Proof. reflexivity. Qed.
+Print Assumptions C09_error_dispatch.
+
+(* a registration whose handle is alive (a subscription from its ready answer on, a publication / exclusive publication from
+   its first lookup on) and sits on that channel status indicator (compared as i32): the registration is forgotten - the next
+   lookup says NotFound -, the error handler is told, and the handle the user holds is closed (a subscription: no images) *)
+Theorem C09_chan_error_ends : forall c k r x s e o,
+  inv s -> closed s = false -> (k = KSub \/ k = KPub \/ k = KXPub) ->
+  lookup r (getm k s) = Some e -> e_obj e = Some o -> chan_id k o = wrap32 x ->
+  let s' := fst (fst (on_event (EvChanError x) s)) in
+  lookup r (getm k s') = None /\ do_find c k r s' = (s', (Err NotFound, [], [])) /\
+  In (CbErr (EChannelEndpoint x)) (snd (fst (on_event (EvChanError x) s))) /\
+  (o_user o = true -> exists o', user_obj k r s' = Some o' /\ o_closed o' = true /\ o_h o' = o_h o /\ (k = KSub -> o_images o' = [])).
+Proof. exact chan_error_ends. Qed.
+Print Assumptions C09_chan_error_ends.
+
+(* every other registration is exactly as it was: one without a live handle (Awaiting, Errored, a publication that was never
+   looked up, a dropped handle), one on another channel status indicator, every counter and destination *)
+Theorem C09_chan_error_others_untouched : forall k r x s,
+  inv s ->
+  (match lookup r (getm k s) with
+   | Some e => match k with KSub | KPub | KXPub => chan_hit k x e = None | _ => True end
+   | None => True end) ->
+  lookup r (getm k (fst (fst (on_event (EvChanError x) s)))) = lookup r (getm k s).
+Proof. exact chan_error_others. Qed.
+Print Assumptions C09_chan_error_others_untouched.
 
 (* the driver's error is reported once: by the first lookup, which also forgets the registration *)
 Theorem C09_find_error_once : forall c k r s e,
@@ -145,6 +221,17 @@ Theorem C09_release_refused : forall k r h s, k <> KDest -> inv s -> held k r h 
 Proof. exact release_held_refused. Qed.
 Print Assumptions C09_release_refused.
 
+(* the user's own close() on the publication / exclusive publication handle it holds: the conductor is not involved - no
+   command, no callback, every registration and every held handle as before - so the later drop still writes its one Remove
+   command (C09_release applies to the state after the close()) *)
+Theorem C09_close_handle : forall k r s,
+  let s' := fst (do_close_handle k r s) in
+  (forall k', getm k' s' = getm k' s) /\ orphans s' = orphans s /\ next_corr s' = next_corr s /\ next_h s' = next_h s /\ closed s' = closed s /\
+  snd (fst (snd (do_close_handle k r s))) = [] /\ snd (snd (do_close_handle k r s)) = [] /\
+  (forall k2 r2 h, held k2 r2 h s -> held k2 r2 h s').
+Proof. exact close_handle_spec. Qed.
+Print Assumptions C09_close_handle.
+
 (* over any history the number of ClientClose commands is that of `close_writes`: one, written by the first close,
    unless the ring refuses it at that moment; without refusals: exactly one iff the history contains a close *)
 Theorem C09_client_close_once : forall c ops s,
@@ -161,15 +248,16 @@ Print Assumptions C09_client_close_once_no_refusal.
 (* an answer whose id is not registered in the map of its kind - an unknown id or the id of a registration of another
    kind - changes nothing (the global counter callbacks fire for every counter of the driver, as the source says) *)
 Theorem C09_unknown_event_ignored : forall ev s,
-  is_client_timeout ev = false ->
+  is_client_timeout ev = false -> is_chan_error ev = false ->
   (match ev_kind ev with Some k => lookup (ev_id ev) (getm k s) = None | None => forall k, lookup (ev_id ev) (getm k s) = None end) ->
   on_event ev s = (s, counter_cbs ev, false).
 Proof. exact event_unknown. Qed.
 Print Assumptions C09_unknown_event_ignored.
 
-(* an event about r1 leaves every registration r2 <> r1 of every kind exactly as it was *)
+(* an event about r1 leaves every registration r2 <> r1 of every kind exactly as it was (a channel endpoint error names a
+   channel, not a registration: C09_chan_error_others_untouched says what it leaves alone) *)
 Theorem C09_event_isolation : forall ev s k r2,
-  is_client_timeout ev = false -> r2 <> ev_id ev ->
+  is_client_timeout ev = false -> is_chan_error ev = false -> r2 <> ev_id ev ->
   lookup r2 (getm k (fst (fst (on_event ev s)))) = lookup r2 (getm k s).
 Proof. exact event_isolation. Qed.
 Print Assumptions C09_event_isolation.
@@ -194,6 +282,27 @@ Example C09_example_run :
   /\ all_cmds (run_obs 0 1000000 10000 5000 ex_ops) =
      [Cmd 1 0 1 [3; 7]; Cmd 4 0 2 [-1; 4; 9]; Cmd 9 0 3 [5; 8; 3]; Cmd 2 0 4 [1]; Cmd 11 0 5 []]
   /\ holds_c09 0 1000000 10000 5000 ex_ops (run_obs 0 1000000 10000 5000 ex_ops) = true.
+Proof. repeat split; vm_compute; reflexivity. Qed.
+
+(* exclusive publications and a channel endpoint error: the subscription (cached) and the held exclusive publication on
+   channel status indicator 6 are ended (id 2^32+6 is 6 as i32), the publication on 7 and the one never looked up stay *)
+Definition ex_chan : list op :=
+  [SetDriverHb 1000000; Add KXPub 3 7 0; Add KSub 4 9 0; Add KPub 5 8 0; Add KPub 5 9 0;
+   DoWork (BEvent (EvXPubReady 1 7 55 3 6)); DoWork (BEvent (EvSubReady 2 6)); DoWork (BEvent (EvPubReady 3 3 8 56 3 7));
+   DoWork (BEvent (EvPubReady 4 4 9 57 3 6));
+   Find KXPub 1; Find KXPub 1; Find KPub 3; Peek KXPub 1;
+   DoWork (BEvent (ev_error 4294967302 4)); Find KXPub 1; Find KSub 2; Find KPub 3; Find KPub 4; Peek KXPub 1; DropHandle KXPub 1].
+
+Example C09_example_chan :
+  map (fun x : out => fst (fst x)) (run_obs 0 1000000 10000 5000 ex_chan) =
+  [Ok []; Ok [1]; Ok [2]; Ok [3]; Ok [4]; Ok [1]; Ok [1]; Ok [1]; Ok [1];
+   Ok [0]; Ok [0]; Ok [1]; Ok [0; 0; 0; 55; 6; 0];
+   Ok [1]; Err NotFound; Err NotFound; Ok [1]; Ok [2]; Ok [0; 1; 0; 55; 6; 0]; Ok [1]]
+  /\ nth 13 (map (fun x : out => snd (fst x)) (run_obs 0 1000000 10000 5000 ex_chan)) [] =
+     [CbErr (EChannelEndpoint 4294967302); CbErr (EChannelEndpoint 4294967302)]
+  /\ all_cmds (run_obs 0 1000000 10000 5000 ex_chan) =
+     [Cmd 3 0 1 [3; 7]; Cmd 4 0 2 [-1; 4; 9]; Cmd 1 0 3 [5; 8]; Cmd 1 0 4 [5; 9]]
+  /\ holds_c09 0 1000000 10000 5000 ex_chan (run_obs 0 1000000 10000 5000 ex_chan) = true.
 Proof. repeat split; vm_compute; reflexivity. Qed.
 
 (* a state in which a handle is held (hypothesis of C09_find_same_while_held and C09_release) *)
